@@ -219,9 +219,13 @@ def seq_emitter(F, fn):
         return {"ok": False, "why": "too many paths"}
     ser = ("param", [n for p in fn["params"] for n, _ in H.pat_bindings(p)][-1])
 
+    flags = {}
+
     def strip_views(t):
         while True:
-            if t[0] == "call" and len(t[2]) == 1 and t[1].split("::")[-1] in ("as_slice", "as_ref", "deref", "iter", "into_iter", "copied", "cloned", "by_ref"):
+            if t[0] == "call" and len(t[2]) == 1 and t[1].split("::")[-1] in ("as_slice", "as_ref", "deref", "iter", "into_iter", "copied", "cloned", "by_ref", "enumerate", "rev"):
+                if t[1].split("::")[-1] == "enumerate":
+                    flags["enumerate"] = True
                 t = t[2][0]
             elif t[0] in ("copy", "mutated"):
                 t = t[1]        # the loop's iterator variable: a cursor over the collection
@@ -289,6 +293,8 @@ def seq_emitter(F, fn):
             if len(elems) != 1 or elems[0].args[0] != Sq:
                 return {"ok": False, "why": "an iteration emits %d elements on some path (e.g. a `continue` / conditional emission) while the header announces one per entry" % len(elems)}
             item = sym.proj(nexts[0].term, S.SOME, 0)
+            if flags.get("enumerate"):
+                item = sym.tproj(item, 1)       # (index, element) pairs of `.enumerate()`
             elem_terms.add(_subst(elems[0].args[1], item, probe))
         else:
             return {"ok": False, "why": "iterator outcome unknown on a path"}
